@@ -97,6 +97,9 @@ def parseOp (ws : List String) : Option Op :=
   | ["keep", i] => on i .keep
   | ["expire", id] => some (.expire (natArg id))
   | ["resetl", i, rv] => on i (.resetl (parseRv rv))
+  | ["gresetl", i, w, k] =>
+    if (w == "pre" || w == "post") && (k == "reset" || k == "leader") then on i (.gresetl (w == "pre") (k == "leader")) else none
+  | ["rfinish", i, rv] => on i (.rfinish (parseRv rv))
   | ["delkey", i, f, rv] => on i (.delkey (parseFault f) (parseRv rv))
   | ["write", i, w, f] => (parseW w).bind fun w => on i (.write w (parseFault f))
   | ["check", i] => on i .check
@@ -253,7 +256,7 @@ def monitor (m : Mon) (op : Op) (x : Impl) : Mon × List String :=
     | .on i (.campaign _ _ _ _) => setAt won0 i ok
     | .on i (.gcampaign _ _) => setAt won0 i false
     | .on i (.finish _ _) => setAt won0 i ok
-    | .on i (.resetl _) | .on i (.stepdown _) | .on i .crash => setAt won0 i false
+    | .on i (.resetl _) | .on i (.stepdown _) | .on i .crash | .on i (.gresetl _ _) => setAt won0 i false
     | .on i (.delkey _ _) => if ok then setAt won0 i false else won0
     | .on i .observe => if x.out == "deleted" then setAt won0 i false else won0
     | _ => won0
@@ -332,6 +335,7 @@ def monitor (m : Mon) (op : Op) (x : Impl) : Mon × List String :=
     match op with
     | .on i (.stepdown _) => mk i ++ mkDown i
     | .on i (.resetl _) => mk i
+    | .on i (.gresetl false _) => mk i   -- the Revoke has been applied by etcd: the lease is resigned
     | .on i (.delkey _ _) => if ok then mk i else []
     | .on i .observe => if x.out == "deleted" then mk i else []
     | _ => []
@@ -354,6 +358,12 @@ structure DState where
 def step (d : DState) (opLine : String) (impl : String) : DState × StepOut :=
   match words opLine with
   | "reset" :: _ => ({}, { model := "ok | - | live=- | -" })
+  | ["serverhb"] =>
+    -- scripted check on an in-process PD server (no model step): a region heartbeat arriving on an existing
+    -- stream right after the leader resigned must not be applied
+    let out := (parseImpl impl).out
+    (d, { model := "ok | " ++ dump d.model d.keys,
+          fails := if out == "ok" then [] else [s!"sig=C03.heartbeat-applied-after-resign observed={out}"] })
   | ["realexpiry", _] =>
     -- real-clock check of the lease timing assumption (no model step): the implementation must report
     -- that the local view expired while the lease was still alive on the etcd side
